@@ -68,7 +68,7 @@ Lemma cfin_caprim a st a' : caprim a st = Some a' -> cfin a' = cfin a.
 Proof. intros H. apply caprim_static in H. destruct H as [H1 H2]. unfold cfin. now rewrite H1, H2. Qed.
 
 Lemma clearn_static a c b : a_mayreset (clearn a c b) = a_mayreset a /\ a_needr (clearn a c b) = a_needr a.
-Proof. destruct c; cbn; auto. destruct c; cbn; auto. Qed.
+Proof. cbn; auto. Qed.
 
 (* ---------- well-formedness of abstract states (consequences of how caprim moves) ---------- *)
 Definition cph_crit (p : cphase) : bool := match p with PhRead | PhStale | PhBuilt | PhSaved => true | _ => false end.
@@ -87,12 +87,11 @@ Proof.
     try (destruct m); unfold caprim, cabs_wfb; cbn;
     destruct hs, hr, hw, nr, ph, q; cbn; try discriminate;
     try (intros H; inversion H; subst; cbn; intros; try discriminate; reflexivity).
-  all: try (destruct (okp_eqb kp (Some false)); cbn; try discriminate; intros H; inversion H; subst; cbn; intros; try discriminate; reflexivity).
   all: try (destruct blocking; cbn; try discriminate; intros H; inversion H; subst; cbn; intros; try discriminate; reflexivity).
 Qed.
 
 Lemma clearn_wf a c b : cabs_wfb (clearn a c b) = cabs_wfb a.
-Proof. destruct c; cbn; auto. destruct c; cbn; auto. Qed.
+Proof. reflexivity. Qed.
 
 Lemma cabs_idle_wf mr nr : cabs_wfb (cabs_idle mr nr) = true.
 Proof. destruct nr; reflexivity. Qed.
